@@ -45,7 +45,9 @@ def gen_value(rng: random.Random, depth=0) -> str:
     if r < 0.45 or depth > 1:
         return rng.choice(["1", "2", '"s"', "true", "[ 1 2 ]", "null", '"1.0"'])
     if r < 0.6:
-        return rng.choice(["x", "y", "version", "v"])  # identifier reference
+        # identifier reference: only names that body bindings never use (v, w may be bound by a let
+        # layer); references to names of the set itself are exercised by C11's own documents
+        return rng.choice(["v", "w", "v", "pkgs"])
     if r < 0.8:
         inner = gen_body(rng, depth + 1, small=True, trivia=False)
         return inner.render(2 * (depth + 1)) if inner.multiline else inner.render()
